@@ -43,6 +43,8 @@ var gen2Acts = [][]string{
 	{"F.I = F.Add(F.I, 1)"},
 	{"F.I2 = F.I2 + 1", "F.I = F.I2"},
 	{"F.I2 = F.I2 + F.SelArr[F.K + 1]", "F.K = F.K + 1"},
+	{`Retract("%o")`},                  // changes no variable at all
+	{`Retract("%o")`, `Retract("%s")`}, // neither
 }
 
 func gen2World(v int64) func() *ref.World {
@@ -75,7 +77,7 @@ func gen2Rule(name, other string, ci, ai int) *grl.Rule {
 
 // general2 emits all 2-rule sets over the (condition x action-list) alphabet.
 func general2(tier string, maxCycle uint64, emit func(Case)) {
-	conds, acts := []int{0, 1, 2, 3, 4, 5, 12, 13, 14}, []int{0, 1, 2, 3, 4, 5, 12}
+	conds, acts := []int{0, 1, 2, 3, 4, 5, 12, 13, 14}, []int{0, 1, 2, 3, 4, 5, 12, 13, 14}
 	if tier == "thorough" {
 		conds, acts = nil, nil
 		for i := range gen2Conds {
